@@ -80,6 +80,7 @@ func run(rt *rapid.T) {
 		rt.Fatalf("%s\nsource history: %s", fmt.Sprintf(f, a...), src.History())
 	})
 	counter := 0
+	src.RT = rt
 	for i, k := range present {
 		src.Update(k, wmkit.GenValue(rt, i, &counter, true))
 	}
@@ -87,6 +88,25 @@ func run(rt *rapid.T) {
 	if mode != "memory" {
 		level = gen.Pick(rt, []int{0, 1, 2, 3, 64}, "level")
 		src.Commit(level)
+	}
+	// the source was reached by a history: value and weight-only updates of its keys after hashes were computed
+	if len(present) > 0 && gen.Chance(rt, 40, "churn") {
+		if mode == "memory" {
+			_ = src.T.Root()
+		}
+		for i := gen.Uniform(rt, 1, 3, "nchurn"); i > 0; i-- {
+			ki := gen.Uniform(rt, 0, len(present)-1, "churnki")
+			if e, ok := src.Model[string(present[ki])]; ok && gen.Chance(rt, 50, "churnw") {
+				src.Reweigh(e, e.Weight+uint64(gen.Uniform(rt, 1, 5, "churndw")))
+			} else {
+				src.Update(present[ki], wmkit.GenValue(rt, ki, &counter, true))
+			}
+		}
+		if mode != "memory" {
+			src.Commit(level)
+		}
+	}
+	if mode != "memory" {
 		if mode == "reloaded" {
 			src.Reload()
 		}
@@ -132,18 +152,24 @@ func run(rt *rapid.T) {
 			k := gen.Pick(rt, req, "fk")
 			_, live := src.Model[string(k)]
 			var val []byte
+			w := uint64(0)
 			if live && gen.Chance(rt, 45, "fdel") {
 				val = nil
 				deletedPresent = true
+			} else if live && gen.Chance(rt, 25, "fweight") {
+				// only the weight changes
+				e := src.Model[string(k)]
+				val = append([]byte(nil), e.Value...)
+				w = e.Weight + uint64(gen.Uniform(rt, 1, 5, "fdw"))
 			} else {
 				val = wmkit.GenValue(rt, 99, &counter, true)
+				w = wmkit.WeightOf(val)
+				if gen.Chance(rt, 50, "fdraww") {
+					w = wmkit.GenWeight(rt)
+				}
 				if !live {
 					insertedAbsent = true
 				}
-			}
-			w := uint64(0)
-			if val != nil {
-				w = wmkit.WeightOf(val)
 			}
 			follow = append(follow, fmt.Sprintf("%x..%x=%x", k[:2], k[30:], val))
 			errS := src.T.Update(k, val, w)
